@@ -403,6 +403,11 @@ def g_km(draw):
              K=gen.integer(draw, 1, 5), thr=gen.choice(draw, [None, None, 1e-1, 1e-2, 0.3]))
     if c["thr"] is not None:
         c["K"] = 12
+    # both trainings may read their rows from a Dask array; the rows may be stored cluster after cluster, so that a
+    # block need not contain every cluster
+    c["dask"] = gen.boolean(draw)
+    c["chunks"] = gen.composition(draw, X.shape[0], max_parts=6)
+    c["grouped"] = gen.boolean(draw)
     return c
 
 
@@ -413,6 +418,13 @@ def c_km(ctx, case):
 
     X, k, Q, s, t, K = case["X"], case["k"], case["Q"], case["s"], case["t"], case["K"]
     cent = np.array(case["init"], float)
+    if case.get("grouped"):
+        # rows stored group after group (by their nearest initial centroid)
+        X = X[np.argsort(np.argmin(ref.sq_dists(X, cent), axis=0), kind="stable")]
+
+    def data(A):
+        return sut.dask_rows(A, case["chunks"]) if case.get("dask") else A
+
     for _ in range(K):
         new, counts, d, margin, lab = ref.kmeans_step(X, cent)
         if margin < 1e-6:
@@ -423,7 +435,7 @@ def c_km(ctx, case):
     X2 = s * (X @ Q) + t[None, :]
     init2 = s * (case["init"] @ Q) + t[None, :]
     thr = case.get("thr")
-    m1 = KMeansMachine(k, init_method=np.array(case["init"], copy=True), max_iter=K, convergence_threshold=thr).fit(X)
+    m1 = KMeansMachine(k, init_method=np.array(case["init"], copy=True), max_iter=K, convergence_threshold=thr).fit(data(X))
     if thr:
         # the relative-change stop test is a ratio of squared distances: invariant under s, Q, t (unlike the GMM's);
         # discard cases whose stop decision is not robust to a 1e-6 change of the threshold
@@ -432,11 +444,12 @@ def c_km(ctx, case):
             if not np.array_equal(mm.centroids_, m1.centroids_):
                 ctx.discard("stop decision within 1e-6 of the threshold")
         ctx.event("with-threshold")
-    m2 = KMeansMachine(k, init_method=init2, max_iter=K, convergence_threshold=thr).fit(X2)
+    m2 = KMeansMachine(k, init_method=init2, max_iter=K, convergence_threshold=thr).fit(data(X2))
     spread = float(np.abs(X - X.mean(axis=0)).max()) + 1e-300
     kap = float(np.abs(t).max() / (s * spread)) if s > 0 else 0.0
     rotated = not np.allclose(Q, np.eye(len(Q)))
-    ctx.note(k >= 2 and (rotated or kap > 10), "rotated" if rotated else "unrotated", "k=%d" % k)
+    ctx.note(k >= 2 and (rotated or kap > 10), "rotated" if rotated else "unrotated", "k=%d" % k,
+             "dask" if case.get("dask") else "numpy", "grouped-rows" if case.get("grouped") else None)
     tol = 1e-9 * (1 + kap)
     back = ((m2.centroids_ - t[None, :]) / s) @ Q.T
     ctx.close(back, m1.centroids_, "centroids follow the similarity transform", rtol=0,
